@@ -311,6 +311,17 @@ def run_sharded(ctx, fn, payload=None, nshards=None):
     return f
 
 
+def run_random(ctx, fn, n_quick, n_thorough, shards_quick=8, shards_thorough=16, extra=None):
+    """Run a module-level `fn(stats, shard, nshards, payload)` that drives Hypothesis with
+    hyp_run(payload['seed'] * 1000 + shard, ..., payload['n']) in several processes."""
+    shards = ctx.pick(shards_quick, shards_thorough)
+    n = max(1, ctx.pick(n_quick, n_thorough) // shards)
+    payload = dict(seed=ctx.seed, n=n, tier=ctx.tier)
+    payload.update(extra or {})
+    ctx.scopes.append('%d Hypothesis processes x %d cases' % (shards, n))
+    return run_sharded(ctx, fn, payload, nshards=shards)
+
+
 # ---------------------------------------------------------------------------------------
 # Hypothesis glue
 
